@@ -75,6 +75,16 @@ def native_check(kind, arch, env=None, seed=0):
             if not torch.allclose(a, b, rtol=1e-9, atol=1e-11):
                 fails.append(("positive phase depends on row order", None))
     if bases is not None:
+        # the single-sample form takes the bases of the row as a str, a list / tuple of labels or a numpy row
+        want1 = st.gradient(samples[1], np.array(list(bases[1])))
+        for form, bb in (("str", bases[1]), ("list", list(bases[1])), ("tuple", tuple(bases[1]))):
+            try:
+                g1 = st.gradient(samples[1], bb)
+                if any(not torch.allclose(a, b, rtol=1e-12, atol=1e-14) for a, b in zip(g1, want1)):
+                    fails.append(("gradient(sample, bases as %s) differs from the numpy-row form" % form, None))
+            except Exception as e:                  # noqa: BLE001
+                fails.append(("gradient(sample, bases as %s) raised" % form, repr(e)))
+    if bases is not None:
         # history: the bases array of an earlier call has been freed and another one - same shape, other rows - sits where
         # it was; gradients are those of the bases at hand (compared with the sum of the single-row gradients)
         first = np.array([list(b) for b in bases])
